@@ -1,7 +1,605 @@
-//! C18 — stub (monitor not built yet)
-use crate::run::{Ctx, Report, Stats};
-pub fn run(_ctx: &Ctx) -> Report {
-    let mut r = Report::new(Stats::default(), "not built");
-    r.inconclusive.push("monitor-not-built".into());
-    r
+//! C18 — finite-difference Jacobian is m x n and equals the forward difference quotients.
+//!
+//! Observation: the closure handed to `Mat64::jacobian` / `Matrix::<Cmplx>::jacobian_cmplx` logs every
+//! point it is called at and every value it returns (RefCell captured by the closure). The oracle judges
+//!   (a) shape: rows == m, cols == n, storage == m*n for every (m,n) in [1,6]^2 (wide and tall included);
+//!   (b) call log: n+1 calls, call 0 at x, call j+1 at x + delta*e_j with every coordinate l > j bit-equal
+//!       to x_l (never touched) and every coordinate l < j restored (bit-equal on dyadic data, within
+//!       RESTORE_TOL*u*(|x_l|+delta) on general data);
+//!   (c) affine maps on dyadic data (every operation exact in f64, certified by an integer model of the
+//!       logged calls): J == M exactly;
+//!   (d) general maps: J_ij equals the difference quotient of the values the closure actually returned
+//!       (double-double reference, QTOL relative), and |J_ij - dF_i/dx_j| <= 1/2*M2*h^2/delta + rounding
+//!       allowance, M2 a rigorous bound of the second derivative on the segment.
+//! Everything (real and complex) is driven through one internal complex representation `Z`; in the real
+//! instantiation all imaginary parts are exactly zero.
+use crate::fl::{DD, U};
+use crate::json::J;
+use crate::mon::common::*;
+use crate::rng::Rng;
+use crate::run::{catch, par_run, Ctx, Outcome, Report, Stats};
+use ohsl::{Cmplx, Mat64, Matrix, Vec64, Vector};
+use std::cell::RefCell;
+
+const TAG: u64 = 0xC18;
+
+// ---- fixed tolerances (audited through the recorded maxima) -------------------------------------------
+/// restored coordinate l<j (and perturbed coordinate j) on general data: |seen - expected| <= RESTORE_TOL*u*(|x_l|+delta).
+/// Rigorous rounding bound is 2 units (x+d then -d), measured worst 1.0 unit; a missing restore is >= delta >= 1e-8,
+/// i.e. >= 2e7 units at |x|<=4.
+const RESTORE_TOL: f64 = 256.0;
+/// entry vs double-double difference quotient of the logged closure values, relative, per real component.
+/// f64: 2 roundings (subtract, divide); Cmplx: 4 (subtract, *delta, delta^2, divide). Measured worst 2.4u (ratio 0.0048).
+const QTOL: f64 = 512.0 * U;
+/// rounding allowance of the derivative bound, in units of u*(A_i(x)+A_i(x+) + sum_{l<=j} D_il*(|x_l|+delta))/delta where
+/// A_i bounds the magnitude of the terms of f_i (so u*A_i bounds the closure's own evaluation error) and D_il the
+/// magnitude of dF_i/dx_l (perturbation rounding and restore drift of earlier coordinates). Measured worst use of
+/// this allowance on the unchanged tree: 0.0044 (5 M Jacobians); at delta=1e-8 it is 5.7e-6*A, a wrong formula is O(1)*D.
+const CN: f64 = 512.0;
+/// rounding allowance for the oracle's own f64 evaluation of the analytic derivative, units of u*D_ij
+const CD: f64 = 64.0;
+/// steps: delta = 2^-k, k = 4..=26, and 1e-8
+const KMIN: u32 = 4;
+const KMAX: u32 = 26;
+
+#[derive(Clone, Copy, PartialEq, Debug)]
+enum Ty { R, C }
+impl Ty {
+    fn name(self) -> &'static str { if self == Ty::R { "f64" } else { "Cmplx" } }
+    fn site(self) -> &'static str { if self == Ty::R { "jacobian" } else { "jacobian_cmplx" } }
+}
+
+// ---- minimal complex arithmetic of the oracle (independent of ohsl's Complex) --------------------------
+#[derive(Clone, Copy, PartialEq)]
+struct Z { re: f64, im: f64 }
+impl std::fmt::Debug for Z {
+    fn fmt(&self, f: &mut std::fmt::Formatter<'_>) -> std::fmt::Result {
+        if self.im == 0.0 { write!(f, "{:?}", self.re) } else { write!(f, "({:?},{:?})", self.re, self.im) }
+    }
+}
+impl Z {
+    const ZERO: Z = Z { re: 0.0, im: 0.0 };
+    fn new(re: f64, im: f64) -> Z { Z { re, im } }
+    fn r(re: f64) -> Z { Z { re, im: 0.0 } }
+    fn add(self, o: Z) -> Z { Z::new(self.re + o.re, self.im + o.im) }
+    fn sub(self, o: Z) -> Z { Z::new(self.re - o.re, self.im - o.im) }
+    fn mul(self, o: Z) -> Z { Z::new(self.re * o.re - self.im * o.im, self.re * o.im + self.im * o.re) }
+    fn scale(self, s: f64) -> Z { Z::new(self.re * s, self.im * s) }
+    fn abs(self) -> f64 { self.re.hypot(self.im) }
+    fn sin(self) -> Z { Z::new(self.re.sin() * self.im.cosh(), self.re.cos() * self.im.sinh()) }
+    fn cos(self) -> Z { Z::new(self.re.cos() * self.im.cosh(), -(self.re.sin() * self.im.sinh())) }
+    fn exp(self) -> Z { let e = self.re.exp(); Z::new(e * self.im.cos(), e * self.im.sin()) }
+    fn recip(self) -> Z {
+        if self.im == 0.0 { Z::new(1.0 / self.re, 0.0) } else { let d = self.re * self.re + self.im * self.im; Z::new(self.re / d, -self.im / d) }
+    }
+    fn finite(self) -> bool { self.re.is_finite() && self.im.is_finite() }
+    fn hash(self, h: u64) -> u64 { hmix(hmix(h, self.re.to_bits()), self.im.to_bits()) }
+}
+
+// ---- what one execution of the library shows --------------------------------------------------------------
+struct JacOut { rows: usize, cols: usize, store: usize, ent: Vec<Z> }
+struct Obs { calls: Vec<Vec<Z>>, outs: Vec<Vec<Z>>, res: Outcome<JacOut> }
+
+/// Run the real library routine on point `x` with step `delta`; `f` is the map (evaluated by the harness),
+/// every call point and returned value is logged.
+fn drive(ty: Ty, x: &[Z], delta: f64, f: &dyn Fn(&[Z]) -> Vec<Z>) -> Obs {
+    let log: RefCell<(Vec<Vec<Z>>, Vec<Vec<Z>>)> = RefCell::new((vec![], vec![]));
+    let res = match ty {
+        Ty::R => {
+            let clos = |v: Vec64| -> Vec64 {
+                let p: Vec<Z> = v.vec.iter().map(|&r| Z::r(r)).collect();
+                let o: Vec<Z> = f(&p).iter().map(|z| Z::r(z.re)).collect();
+                let ret = Vector::create(o.iter().map(|z| z.re).collect::<Vec<f64>>());
+                let mut l = log.borrow_mut();
+                l.0.push(p);
+                l.1.push(o);
+                ret
+            };
+            let pt: Vec64 = Vector::create(x.iter().map(|z| z.re).collect::<Vec<f64>>());
+            catch(|| {
+                let jm = Mat64::jacobian(pt, &clos, delta);
+                let (rows, cols, store) = (jm.rows(), jm.cols(), jm.verif_storage_len());
+                let mut ent = vec![];
+                if store == rows * cols && store <= 4096 { for i in 0..rows { for j in 0..cols { ent.push(Z::r(jm[(i, j)])); } } }
+                JacOut { rows, cols, store, ent }
+            })
+        }
+        Ty::C => {
+            let clos = |v: Vector<Cmplx>| -> Vector<Cmplx> {
+                let p: Vec<Z> = v.vec.iter().map(|c| Z::new(c.real, c.imag)).collect();
+                let o: Vec<Z> = f(&p);
+                let ret = Vector::create(o.iter().map(|z| Cmplx::new(z.re, z.im)).collect::<Vec<Cmplx>>());
+                let mut l = log.borrow_mut();
+                l.0.push(p);
+                l.1.push(o);
+                ret
+            };
+            let pt: Vector<Cmplx> = Vector::create(x.iter().map(|z| Cmplx::new(z.re, z.im)).collect::<Vec<Cmplx>>());
+            catch(|| {
+                let jm = Matrix::<Cmplx>::jacobian_cmplx(pt, &clos, delta);
+                let (rows, cols, store) = (jm.rows(), jm.cols(), jm.verif_storage_len());
+                let mut ent = vec![];
+                if store == rows * cols && store <= 4096 { for i in 0..rows { for j in 0..cols { let c = jm[(i, j)]; ent.push(Z::new(c.real, c.imag)); } } }
+                JacOut { rows, cols, store, ent }
+            })
+        }
+    };
+    let (calls, outs) = log.into_inner();
+    Obs { calls, outs, res }
+}
+
+/// Outcome + shape. Returns the entries when the routine returned an m x n matrix.
+fn check_outcome<'a>(st: &mut Stats, ty: Ty, m: usize, n: usize, obs: &'a Obs, desc: &dyn Fn() -> String) -> Option<&'a JacOut> {
+    match &obs.res {
+        Outcome::Ok(j) => {
+            if j.rows != m || j.cols != n || j.store != m * n || j.ent.len() != m * n {
+                st.violation(&format!("C18:{}:{}:shape", ty.site(), ty.name()),
+                    format!("returned {}x{} (storage {}) for a map from {} variables to {} components; {}", j.rows, j.cols, j.store, n, m, desc()));
+                None
+            } else { Some(j) }
+        }
+        Outcome::Panic { msg, loc } => {
+            // the known set_col range-check failure gets its own narrow signature; any other refusal is separate
+            let mode = if m < n && msg.contains("range error in set_col") { "panic-rectangular" } else { "panic" };
+            st.violation(&format!("C18:{}:{}:{}", ty.site(), ty.name(), mode),
+                format!("panic '{}' at {} after {} closure calls, expected a {}x{} matrix; {}", msg, loc, obs.calls.len(), m, n, desc()));
+            None
+        }
+        Outcome::Overflow | Outcome::Budget => { st.count("skipped:overflow-or-budget"); None }
+    }
+}
+
+/// Call-log monitor. `exact`: data on which x_j+delta and the restore are exact in f64 (bit-equality demanded).
+fn check_calls(st: &mut Stats, ty: Ty, exact: bool, x: &[Z], delta: f64, obs: &Obs, desc: &dyn Fn() -> String) -> bool {
+    let n = x.len();
+    let sig = |mode: &str| format!("C18:calls:{}:{}", ty.name(), mode);
+    if obs.calls.len() != n + 1 || obs.outs.len() != n + 1 {
+        st.violation(&sig("call-count"), format!("closure called {} times, expected n+1={}; calls={:?}; {}", obs.calls.len(), n + 1, obs.calls, desc()));
+        return false;
+    }
+    if obs.calls.iter().any(|p| p.len() != n) {
+        st.violation(&sig("call-point"), format!("closure called with a point of wrong length; calls={:?}; {}", obs.calls, desc()));
+        return false;
+    }
+    if (0..n).any(|l| !(obs.calls[0][l].re == x[l].re && obs.calls[0][l].im == x[l].im)) {
+        st.violation(&sig("base-point"), format!("call 0 at {:?}, expected the evaluation point itself; {}", obs.calls[0], desc()));
+        return false;
+    }
+    let mut ok = true;
+    for j in 0..n {
+        let p = &obs.calls[j + 1];
+        for l in 0..n {
+            let unit = U * (x[l].re.abs() + delta);
+            let im_ok = p[l].im == x[l].im;
+            if l == j {
+                let want = x[l].re + delta;
+                let err = (p[l].re - want).abs();
+                if !exact { st.max("calls:max_perturb_err_units(tol 256)", err / unit); }
+                let good = if exact { p[l].re == want } else { err <= RESTORE_TOL * unit };
+                if !(good && im_ok) {
+                    if ok { st.violation(&sig("call-point"), format!("call {} has coordinate {} = {:?}, expected x_{}+delta = {:?}; point={:?}; {}", j + 1, l, p[l], l, Z::new(want, x[l].im), p, desc())); }
+                    ok = false;
+                }
+            } else if l > j {
+                if !(p[l].re == x[l].re && im_ok) {
+                    if ok { st.violation(&sig("call-point"), format!("call {} has untouched coordinate {} = {:?} != x_{} = {:?}; point={:?}; {}", j + 1, l, p[l], l, x[l], p, desc())); }
+                    ok = false;
+                }
+            } else {
+                let err = (p[l].re - x[l].re).abs();
+                if !exact { st.max("calls:max_restore_err_units(tol 256)", err / unit); }
+                let good = if exact { p[l].re == x[l].re } else { err <= RESTORE_TOL * unit };
+                if !(good && im_ok) {
+                    if ok { st.violation(&sig("not-restored"), format!("call {} has coordinate {} = {:?}, expected it restored to x_{} = {:?} before coordinate {} was perturbed; point={:?}; {}", j + 1, l, p[l], l, x[l], j, p, desc())); }
+                    ok = false;
+                }
+            }
+        }
+    }
+    ok
+}
+
+/// Entry (i,j) must be the forward difference quotient (F_i(call j+1) - F_i(call 0))/delta of the values the
+/// closure returned; reference in double-double, per real component.
+fn check_quotient(st: &mut Stats, ty: Ty, m: usize, n: usize, delta: f64, obs: &Obs, jac: &JacOut, desc: &dyn Fn() -> String) {
+    if obs.outs.len() != n + 1 || obs.outs.iter().any(|o| o.len() != m) { return; }
+    let dd = DD::from(delta);
+    let mut flagged = false;
+    for i in 0..m {
+        for j in 0..n {
+            let (a, b, got) = (obs.outs[j + 1][i], obs.outs[0][i], jac.ent[i * n + j]);
+            for (av, bv, gv) in [(a.re, b.re, got.re), (a.im, b.im, got.im)] {
+                let q = (DD::from(av) - DD::from(bv)) / dd;
+                let err = ((gv - q.hi) - q.lo).abs();
+                let tol = QTOL * q.hi.abs() + 1e-290;
+                if q.hi != 0.0 { st.max("quotient:max_err_over_tol", err / tol); }
+                if !(err <= tol) && !flagged {
+                    flagged = true;
+                    st.violation(&format!("C18:{}:{}:quotient", ty.site(), ty.name()),
+                        format!("entry ({},{}) = {:?} but (F_{}(x+delta e_{}) - F_{}(x))/delta = ({:?} - {:?})/{:e} = {:e}; {}", i, j, got, i, j, i, a, b, delta, q.hi, desc()));
+                }
+            }
+        }
+    }
+}
+
+// ---- (c) affine maps on dyadic data: exact -------------------------------------------------------------------
+/// integer description: M = mq/2^sm, c = cq/2^sc, x = xp/16 (Gaussian integers in the complex instantiation)
+#[derive(Clone, Debug)]
+struct AffInt { m: usize, n: usize, mq: Vec<(i64, i64)>, sm: u32, cq: Vec<(i64, i64)>, sc: u32, xp: Vec<(i64, i64)> }
+
+fn pow2(e: i32) -> f64 { 2f64.powi(e) }
+
+fn judge_affine_exact(st: &mut Stats, ty: Ty, class: &str, a: &AffInt, k: u32) {
+    let (m, n) = (a.m, a.n);
+    st.next_case();
+    let delta = pow2(-(k as i32));
+    let mf: Vec<Z> = a.mq.iter().map(|&(r, i)| Z::new(r as f64 / pow2(a.sm as i32), i as f64 / pow2(a.sm as i32))).collect();
+    let cf: Vec<Z> = a.cq.iter().map(|&(r, i)| Z::new(r as f64 / pow2(a.sc as i32), i as f64 / pow2(a.sc as i32))).collect();
+    let x: Vec<Z> = a.xp.iter().map(|&(r, i)| Z::new(r as f64 / 16.0, i as f64 / 16.0)).collect();
+    let f = |p: &[Z]| -> Vec<Z> {
+        (0..m).map(|i| { let mut s = cf[i]; for j in 0..n.min(p.len()) { s = s.add(mf[i * n + j].mul(p[j])); } s }).collect()
+    };
+    let desc = || format!("T={} class={} m={} n={} delta=2^-{} map x->Mx+c with M(row-major)={:?} c={:?} x={:?}", ty.name(), class, m, n, k, mf, cf, x);
+    let obs = drive(ty, &x, delta, &f);
+    st.eval();
+    st.count(&format!("cases:{}:affine-exact", ty.name()));
+    st.set_insert(&format!("shapes:{}:affine-exact", ty.name()), format!("{}x{}", m, n));
+    st.set_insert("steps:affine-exact", format!("2^-{:02}", k));
+    if mf.iter().any(|z| z.re != 0.0 || z.im != 0.0) {
+        let mut h = hmix(hash_str(ty.name()) ^ hash_str("affine-exact"), ((m as u64) << 32) | ((n as u64) << 16) | k as u64);
+        for z in mf.iter().chain(cf.iter()).chain(x.iter()) { h = z.hash(h); }
+        st.nontrivial(h);
+    }
+    st.sample(|| desc());
+    let jac = check_outcome(st, ty, m, n, &obs, &desc);
+    if !obs.res.is_ok() { return; } // refused: the call log is truncated, nothing more to judge
+    let calls_ok = check_calls(st, ty, true, &x, delta, &obs, &desc);
+    let jac = match jac { Some(j) if calls_ok => j, _ => return };
+    // certificate (integer model of the logged calls): the closure's f64 evaluation was exact
+    let sh = 26 + a.sm.max(a.sc);
+    let mut cert = true;
+    'c: for (p, o) in obs.calls.iter().zip(obs.outs.iter()) {
+        let mut xi: Vec<(i128, i128)> = vec![];
+        for z in p {
+            let (r, i) = (z.re * pow2(26), z.im * pow2(26));
+            if r.fract() != 0.0 || i.fract() != 0.0 || r.abs() > 1e15 || i.abs() > 1e15 { cert = false; break 'c; }
+            xi.push((r as i128, i as i128));
+        }
+        for i in 0..m {
+            let up = 1i128 << (sh - 26 - a.sm);
+            let (mut fr, mut fi) = ((a.cq[i].0 as i128) << (sh - a.sc), (a.cq[i].1 as i128) << (sh - a.sc));
+            for j in 0..n {
+                let (qr, qi) = (a.mq[i * n + j].0 as i128 * up, a.mq[i * n + j].1 as i128 * up);
+                fr += qr * xi[j].0 - qi * xi[j].1;
+                fi += qr * xi[j].1 + qi * xi[j].0;
+            }
+            if fr.abs() >= 1i128 << 52 || fi.abs() >= 1i128 << 52 || o.len() != m { cert = false; break 'c; }
+            if o[i].re * pow2(sh as i32) != fr as f64 || o[i].im * pow2(sh as i32) != fi as f64 { cert = false; break 'c; }
+        }
+    }
+    if !cert {
+        st.count("skipped:affine-exactness-certificate-failed");
+        if st.harness_errors.len() < 3 { st.harness_errors.push(format!("C18 affine exactness certificate failed: {}", desc())); }
+        return;
+    }
+    st.count("certified:affine-exact");
+    let bad = (0..m * n).find(|&e| !(jac.ent[e].re == mf[e].re && jac.ent[e].im == mf[e].im));
+    if let Some(e) = bad {
+        st.violation(&format!("C18:{}:{}:affine-not-exact", ty.site(), ty.name()),
+            format!("entry ({},{}) = {:?} but M entry is {:?} (all operations exact on this data); J(row-major)={:?}; {}", e / n, e % n, jac.ent[e], mf[e], jac.ent, desc()));
+    }
+}
+
+fn gen_affine(rng: &mut Rng, ty: Ty, m: usize, n: usize) -> (AffInt, &'static str) {
+    let cplx = ty == Ty::C && !rng.chance(0.2);
+    let variant = rng.below(4);
+    let im = |rng: &mut Rng, lim: i64| if cplx { rng.int(-lim, lim) } else { 0 };
+    let mut mq = vec![(0i64, 0i64); m * n];
+    let (sm, class) = match variant {
+        0 => { for e in mq.iter_mut() { *e = (rng.int(-64, 64), im(rng, 64)); } (rng.below(4) as u32, "dense") }
+        1 => { for e in mq.iter_mut() { if rng.bool() { *e = (rng.int(-64, 64), im(rng, 64)); } } (rng.below(4) as u32, "sparse") }
+        2 => { for e in mq.iter_mut() { *e = (rng.int(-3, 3), im(rng, 3)); } (0, "small-int") }
+        _ => { for i in 0..m { let j = rng.usize(0, n - 1); mq[i * n + j] = if cplx && rng.bool() { (0, rng.nzint(1)) } else { (rng.nzint(1), 0) }; } (0, "selection") }
+    };
+    let sc = rng.below(4) as u32;
+    let cq: Vec<(i64, i64)> = (0..m).map(|_| (rng.int(-64, 64), im(rng, 64))).collect();
+    let coord = |rng: &mut Rng| -> i64 { if rng.chance(0.2) { *rng.pick(&[-64i64, 0, 64]) } else { rng.int(-64, 64) } };
+    let xp: Vec<(i64, i64)> = (0..n).map(|_| { let r = coord(rng); let i = if cplx { coord(rng) } else { 0 }; (r, i) }).collect();
+    (AffInt { m, n, mq, sm, cq, sc, xp }, class)
+}
+
+/// seed-independent sweep: index-coded M (all entries distinct), fixed corner / centre / staggered points
+fn enumerated_affine(ty: Ty, m: usize, n: usize, pt: usize) -> AffInt {
+    let c = ty == Ty::C;
+    let mq = (0..m * n).map(|e| { let v = e as i64 + 1; (if e % 2 == 0 { v } else { -v }, if c { 37 - v } else { 0 }) }).collect();
+    let cq = (0..m).map(|i| (i as i64 + 1, if c { -(i as i64) - 2 } else { 0 })).collect();
+    let xp = (0..n).map(|j| {
+        let j = j as i64;
+        match pt {
+            0 => (0, 0),
+            1 => (64, if c { 64 } else { 0 }),
+            2 => (-64, if c { -64 } else { 0 }),
+            _ => (if j % 2 == 0 { 8 * (j + 1) + 1 } else { -8 * (j + 1) - 1 }, if c { 5 * j - 13 } else { 0 }),
+        }
+    }).collect();
+    AffInt { m, n, mq, sm: 3, cq, sc: 0, xp }
+}
+
+// ---- (d) general maps with known derivatives ----------------------------------------------------------------------
+#[derive(Clone, Debug)]
+enum Term {
+    /// a
+    Const(Z),
+    /// a*x_p
+    Lin(Z, usize),
+    /// a*x_p*x_q (p == q allowed)
+    Quad(Z, usize, usize),
+    /// a*x_p^2*x_q (p == q allowed)
+    Cubic(Z, usize, usize),
+    /// a*sin(w.x + b)
+    Sin(Z, Vec<Z>, Z),
+    /// a*exp(w.x + b)
+    Exp(Z, Vec<Z>, Z),
+    /// a/(8 + x_p)   (Re x_p >= -4, so |8+x_p| >= 4)
+    Recip(Z, usize),
+    /// a/(1 + x_p^2), real instantiation only
+    Lorentz(f64, usize),
+}
+
+/// zeta = b + w.x and S = |b| + sum |w_j||x_j| (rounding error of zeta <= ~24u*S for n <= 6)
+fn ridge(w: &[Z], b: Z, x: &[Z]) -> (Z, f64) {
+    let (mut z, mut s) = (b, b.abs());
+    for j in 0..w.len().min(x.len()) { z = z.add(w[j].mul(x[j])); s += w[j].abs() * x[j].abs(); }
+    (z, s)
+}
+const INFL: f64 = 1.0 + 1e-9;
+
+impl Term {
+    /// value and magnitude A (u*A*const bounds the rounding error of this evaluation)
+    fn val(&self, x: &[Z]) -> (Z, f64) {
+        match self {
+            Term::Const(a) => (*a, a.abs()),
+            Term::Lin(a, p) => (a.mul(x[*p]), a.abs() * x[*p].abs()),
+            Term::Quad(a, p, q) => (a.mul(x[*p]).mul(x[*q]), a.abs() * x[*p].abs() * x[*q].abs()),
+            Term::Cubic(a, p, q) => (a.mul(x[*p]).mul(x[*p]).mul(x[*q]), a.abs() * x[*p].abs() * x[*p].abs() * x[*q].abs()),
+            Term::Sin(a, w, b) => { let (z, s) = ridge(w, *b, x); (a.mul(z.sin()), a.abs() * z.im.abs().cosh() * (1.0 + s)) }
+            Term::Exp(a, w, b) => { let (z, s) = ridge(w, *b, x); (a.mul(z.exp()), a.abs() * z.re.exp() * (1.0 + s)) }
+            Term::Recip(a, p) => { let d = Z::r(8.0).add(x[*p]); (a.mul(d.recip()), a.abs() / d.abs()) }
+            Term::Lorentz(a, p) => { let t = x[*p].re; let v = a / (1.0 + t * t); (Z::r(v), v.abs()) }
+        }
+    }
+    /// d/dx_j and magnitude D
+    fn der(&self, x: &[Z], j: usize) -> (Z, f64) {
+        let mk = |z: Z| (z, z.abs());
+        match self {
+            Term::Const(_) => (Z::ZERO, 0.0),
+            Term::Lin(a, p) => if j == *p { mk(*a) } else { (Z::ZERO, 0.0) },
+            Term::Quad(a, p, q) => {
+                if p == q { if j == *p { mk(a.mul(x[*p]).scale(2.0)) } else { (Z::ZERO, 0.0) } }
+                else if j == *p { mk(a.mul(x[*q])) } else if j == *q { mk(a.mul(x[*p])) } else { (Z::ZERO, 0.0) }
+            }
+            Term::Cubic(a, p, q) => {
+                if p == q { if j == *p { mk(a.mul(x[*p]).mul(x[*p]).scale(3.0)) } else { (Z::ZERO, 0.0) } }
+                else if j == *p { mk(a.mul(x[*p]).mul(x[*q]).scale(2.0)) } else if j == *q { mk(a.mul(x[*p]).mul(x[*p])) } else { (Z::ZERO, 0.0) }
+            }
+            Term::Sin(a, w, b) => { let (z, s) = ridge(w, *b, x); (a.mul(w[j]).mul(z.cos()), a.abs() * w[j].abs() * z.im.abs().cosh() * (1.0 + s)) }
+            Term::Exp(a, w, b) => { let (z, s) = ridge(w, *b, x); (a.mul(w[j]).mul(z.exp()), a.abs() * w[j].abs() * z.re.exp() * (1.0 + s)) }
+            Term::Recip(a, p) => if j == *p { let r = Z::r(8.0).add(x[*p]).recip(); mk(a.mul(r).mul(r).scale(-1.0)) } else { (Z::ZERO, 0.0) },
+            Term::Lorentz(a, p) => if j == *p { let t = x[*p].re; let d = 1.0 + t * t; mk(Z::r(-2.0 * a * t / (d * d))) } else { (Z::ZERO, 0.0) },
+        }
+    }
+    /// rigorous bound of |d^2/dx_j^2| on the segment x + t e_j, 0 <= t <= h (t real)
+    fn m2(&self, x: &[Z], j: usize, h: f64) -> f64 {
+        let v = match self {
+            Term::Const(_) | Term::Lin(..) => 0.0,
+            Term::Quad(a, p, q) => if p == q && j == *p { 2.0 * a.abs() } else { 0.0 },
+            Term::Cubic(a, p, q) => {
+                if p == q { if j == *p { 6.0 * a.abs() * x[*p].abs().max(Z::new(x[*p].re + h, x[*p].im).abs()) } else { 0.0 } }
+                else if j == *p { 2.0 * a.abs() * x[*q].abs() } else { 0.0 }
+            }
+            Term::Sin(a, w, b) => {
+                let (z, s) = ridge(w, *b, x);
+                let y = z.im.abs().max((z.im + w[j].im * h).abs()) + 1e-9 * (1.0 + s);
+                a.abs() * w[j].abs() * w[j].abs() * y.cosh()
+            }
+            Term::Exp(a, w, b) => {
+                let (z, s) = ridge(w, *b, x);
+                let r = z.re.max(z.re + w[j].re * h) + 1e-9 * (1.0 + s);
+                a.abs() * w[j].abs() * w[j].abs() * r.exp()
+            }
+            Term::Recip(a, p) => if j == *p { let r0 = 8.0 + x[*p].re; if r0 >= 1.0 { 2.0 * a.abs() / (r0 * r0 * r0) } else { f64::INFINITY } } else { 0.0 },
+            Term::Lorentz(a, p) => if j == *p { 2.0 * a.abs() } else { 0.0 },
+        };
+        v * INFL
+    }
+    fn hash(&self, h: u64) -> u64 {
+        match self {
+            Term::Const(a) => a.hash(hmix(h, 1)),
+            Term::Lin(a, p) => a.hash(hmix(h, 2 + 16 * *p as u64)),
+            Term::Quad(a, p, q) => a.hash(hmix(h, 3 + 16 * *p as u64 + 256 * *q as u64)),
+            Term::Cubic(a, p, q) => a.hash(hmix(h, 4 + 16 * *p as u64 + 256 * *q as u64)),
+            Term::Sin(a, w, b) => { let mut g = b.hash(a.hash(hmix(h, 5))); for z in w { g = z.hash(g); } g }
+            Term::Exp(a, w, b) => { let mut g = b.hash(a.hash(hmix(h, 6))); for z in w { g = z.hash(g); } g }
+            Term::Recip(a, p) => a.hash(hmix(h, 7 + 16 * *p as u64)),
+            Term::Lorentz(a, p) => hmix(hmix(h, 8 + 16 * *p as u64), a.to_bits()),
+        }
+    }
+}
+
+type Map = Vec<Vec<Term>>;
+
+fn eval_map(map: &Map, x: &[Z]) -> Vec<Z> {
+    map.iter().map(|comp| { let mut s = Z::ZERO; for t in comp { s = s.add(t.val(x).0); } s }).collect()
+}
+fn mag_comp(comp: &[Term], x: &[Z]) -> f64 { comp.iter().map(|t| t.val(x).1).sum() }
+
+fn judge_general(st: &mut Stats, ty: Ty, class: &str, m: usize, n: usize, delta: f64, dname: &str, map: &Map, x: &[Z]) {
+    st.next_case();
+    let desc = || format!("T={} class={} m={} n={} delta={}({:e}) x={:?} map(components as term sums)={:?}", ty.name(), class, m, n, dname, delta, x, map);
+    let f = |p: &[Z]| -> Vec<Z> { if p.len() == n { eval_map(map, p) } else { vec![Z::ZERO; m] } };
+    let obs = drive(ty, x, delta, &f);
+    st.eval();
+    st.count(&format!("cases:{}:{}", ty.name(), class));
+    st.set_insert(&format!("shapes:{}:general", ty.name()), format!("{}x{}", m, n));
+    st.set_insert("steps:general", dname.to_string());
+    // analytic Jacobian, derivative magnitudes at x
+    let mut jt = vec![Z::ZERO; m * n];
+    let mut dmag = vec![0.0f64; m * n];
+    for i in 0..m { for j in 0..n { for t in &map[i] { let (d, g) = t.der(x, j); jt[i * n + j] = jt[i * n + j].add(d); dmag[i * n + j] += g; } } }
+    if !(jt.iter().all(|z| z.finite()) && dmag.iter().all(|v| v.is_finite())) { st.count("skipped:model-not-finite"); return; }
+    if jt.iter().any(|z| z.re != 0.0 || z.im != 0.0) {
+        let mut h = hmix(hash_str(ty.name()) ^ hash_str(class), ((m as u64) << 32) | ((n as u64) << 16));
+        h = hmix(h, delta.to_bits());
+        for z in x { h = z.hash(h); }
+        for comp in map { h = hmix(h, 0xC0); for t in comp { h = t.hash(h); } }
+        st.nontrivial(h);
+    }
+    st.sample(|| desc());
+    let jac = check_outcome(st, ty, m, n, &obs, &desc);
+    if !obs.res.is_ok() { return; } // refused: the call log is truncated, nothing more to judge
+    let calls_ok = check_calls(st, ty, false, x, delta, &obs, &desc);
+    let jac = match jac { Some(j) if calls_ok => j, _ => return };
+    if !jac.ent.iter().all(|z| z.finite()) {
+        st.violation(&format!("C18:{}:{}:nonfinite", ty.site(), ty.name()), format!("non-finite entry in J(row-major)={:?}; {}", jac.ent, desc()));
+        return;
+    }
+    check_quotient(st, ty, m, n, delta, &obs, jac, &desc);
+    // derivative bound, all from the generator's own data (x, delta, map), never from the library's output
+    let a0: Vec<f64> = (0..m).map(|i| mag_comp(&map[i], x)).collect();
+    let wl: Vec<f64> = x.iter().map(|z| z.re.abs() + delta).collect();
+    let mut flagged = false;
+    let (mut r_bound, mut r_excess, mut r_lin) = (f64::NEG_INFINITY, f64::NEG_INFINITY, f64::NEG_INFINITY);
+    for j in 0..n {
+        let mut xp = x.to_vec();
+        xp[j].re = x[j].re + delta;
+        let hup = delta + 2.0 * U * wl[j];
+        for i in 0..m {
+            let e = i * n + j;
+            let m2: f64 = map[i].iter().map(|t| t.m2(x, j, hup)).sum();
+            let trunc = 0.5 * m2 * hup * hup / delta * INFL;
+            // rounding allowance: closure evaluation noise at x and x+, perturbation rounding of coordinate j (|h-delta| <= u*w_j)
+            // and restore drift of the earlier coordinates l<j (<= 2u*w_l each) seen through dF_i/dx_l at the perturbed point
+            let dp: f64 = map[i].iter().map(|t| t.der(&xp, j).1).sum();
+            let mut moved = dmag[e].max(dp) * wl[j];
+            for l in 0..j { moved += map[i].iter().map(|t| t.der(&xp, l).1).sum::<f64>() * wl[l]; }
+            let noise = CN * U * (a0[i] + mag_comp(&map[i], &xp) + moved) / delta + CD * U * dmag[e];
+            let bound = trunc + noise;
+            let err = jac.ent[e].sub(jt[e]).abs();
+            if !bound.is_finite() { st.count("skipped:entry-bound-not-finite"); continue; }
+            if bound > 0.0 { r_bound = r_bound.max(err / bound); }
+            if noise > 0.0 { r_excess = r_excess.max((err - trunc) / noise); }
+            if m2 == 0.0 && noise > 0.0 { r_lin = r_lin.max(err / noise); }
+            if !(err <= bound) && !flagged {
+                flagged = true;
+                st.violation(&format!("C18:{}:{}:derivative-bound", ty.site(), ty.name()),
+                    format!("entry ({},{}) = {:?}, analytic dF_{}/dx_{} = {:?}, |difference| = {:e} > bound {:e} (= truncation 1/2*{:e}*h^2/delta = {:e} + rounding allowance {:e}); J(row-major)={:?}; {}",
+                        i, j, jac.ent[e], i, j, jt[e], err, bound, m2, trunc, noise, jac.ent, desc()));
+            }
+        }
+    }
+    st.max(if ty == Ty::R { "deriv:f64:max_err_over_bound" } else { "deriv:Cmplx:max_err_over_bound" }, r_bound);
+    st.max(if ty == Ty::R { "deriv:f64:max_(err-trunc)_over_rounding_allowance" } else { "deriv:Cmplx:max_(err-trunc)_over_rounding_allowance" }, r_excess);
+    st.max(if ty == Ty::R { "deriv:f64:max_err_over_allowance_when_M2=0" } else { "deriv:Cmplx:max_err_over_allowance_when_M2=0" }, r_lin);
+}
+
+fn gen_coef(rng: &mut Rng, ty: Ty, scale: f64) -> Z {
+    let one = |rng: &mut Rng| if rng.chance(0.3) { rng.dyadic(16, 4) * scale } else { rng.range(-scale, scale) };
+    let re = one(rng);
+    let im = if ty == Ty::C && !rng.chance(0.15) { one(rng) } else { 0.0 };
+    Z::new(re, im)
+}
+
+fn gen_term(rng: &mut Rng, ty: Ty, n: usize) -> Term {
+    let kinds = if ty == Ty::R { 8 } else { 7 };
+    let p = rng.usize(0, n - 1);
+    let q = rng.usize(0, n - 1);
+    match rng.below(kinds) {
+        0 => Term::Lin(gen_coef(rng, ty, 8.0), p),
+        1 => Term::Quad(gen_coef(rng, ty, 2.0), p, q),
+        2 => Term::Cubic(gen_coef(rng, ty, 0.5), p, q),
+        3 => {
+            let sparse = rng.chance(0.3);
+            let w = (0..n).map(|_| if sparse && rng.bool() { Z::ZERO } else { gen_coef(rng, ty, if ty == Ty::R { 1.0 } else { 0.25 }) }).collect();
+            Term::Sin(gen_coef(rng, ty, 4.0), w, gen_coef(rng, ty, 3.0))
+        }
+        4 => {
+            let sparse = rng.chance(0.3);
+            let w = (0..n).map(|_| if sparse && rng.bool() { Z::ZERO } else { gen_coef(rng, ty, 0.125) }).collect();
+            Term::Exp(gen_coef(rng, ty, 2.0), w, gen_coef(rng, ty, 1.0))
+        }
+        5 => Term::Recip(gen_coef(rng, ty, 16.0), p),
+        6 => Term::Const(gen_coef(rng, ty, 8.0)),
+        _ => Term::Lorentz(rng.range(-8.0, 8.0), p),
+    }
+}
+
+fn gen_map(rng: &mut Rng, ty: Ty, m: usize, n: usize) -> (Map, &'static str) {
+    if rng.chance(0.25) {
+        // affine with general (non-dyadic) data: "exact up to rounding"
+        let map = (0..m).map(|_| {
+            let mut comp = vec![Term::Const(gen_coef(rng, ty, 8.0))];
+            for j in 0..n { if rng.chance(0.85) { comp.push(Term::Lin(gen_coef(rng, ty, 8.0), j)); } }
+            comp
+        }).collect();
+        (map, "affine-general")
+    } else {
+        let map = (0..m).map(|_| { let k = rng.usize(1, 3); (0..k).map(|_| gen_term(rng, ty, n)).collect() }).collect();
+        (map, "smooth")
+    }
+}
+
+fn gen_point(rng: &mut Rng, ty: Ty, n: usize) -> Vec<Z> {
+    let style = rng.below(10);
+    let one = |rng: &mut Rng| -> f64 {
+        match style {
+            0 | 1 => rng.int(-64, 64) as f64 / 16.0,
+            2 => *rng.pick(&[-4.0, 4.0, 0.0, 1e-9, -1e-9, 9.313225746154785e-10, 3.999999999999999, -3.999999999999999, 0.1, -0.7]),
+            _ => rng.range(-4.0, 4.0),
+        }
+    };
+    (0..n).map(|_| { let re = one(rng); let im = if ty == Ty::C { one(rng) } else { 0.0 }; Z::new(re, im) }).collect()
+}
+
+pub fn run(ctx: &Ctx) -> Report {
+    // unit u: shape (m,n) = (u%36/6+1, u%36%6+1), repetition u/36. Every unit sweeps both types and all steps.
+    let units = ctx.vol(36 * 100, 36 * 1500).max(36);
+    let stats = par_run(ctx, TAG, units, |u, rng, st| {
+        let s = (u % 36) as usize;
+        let (m, n) = (s / 6 + 1, s % 6 + 1);
+        let rep = u / 36;
+        for ty in [Ty::R, Ty::C] {
+            if rep == 0 {
+                for pt in 0..4 { for k in KMIN..=KMAX { judge_affine_exact(st, ty, "enumerated", &enumerated_affine(ty, m, n, pt), k); } }
+            }
+            for k in KMIN..=KMAX {
+                let (a, class) = gen_affine(rng, ty, m, n);
+                judge_affine_exact(st, ty, class, &a, k);
+            }
+            for k in KMIN..=KMAX + 1 {
+                let (delta, dname) = if k <= KMAX { (pow2(-(k as i32)), format!("2^-{:02}", k)) } else { (1e-8, "1e-8".to_string()) };
+                let (map, class) = gen_map(rng, ty, m, n);
+                let x = gen_point(rng, ty, n);
+                judge_general(st, ty, class, m, n, delta, &dname, &map, &x);
+            }
+        }
+    });
+    let mut rep = Report::new(stats,
+        "cases: every shape (m,n) in [1,6]^2 x {f64 via Mat64::jacobian, Cmplx via jacobian_cmplx}; per shape and type (i) affine maps x->Mx+c with dyadic M (q/2^s, |q|<=64, s<=3; dense / sparse / small-integer / signed-selection patterns), dyadic c and points k/16 in [-4,4]^n (Gaussian-dyadic in the complex case) for EVERY step delta=2^-k, k=4..26, plus a seed-independent sweep (index-coded M with all entries distinct at 4 fixed points x all k); (ii) for every delta in {2^-4..2^-26, 1e-8} a random map built from terms {const, a*x_p, a*x_p*x_q, a*x_p^2*x_q, a*sin(w.x+b), a*exp(w.x+b), a/(8+x_p), a/(1+x_p^2) (real only)} (class smooth, 1-3 terms per component) or a general-coefficient affine map (class affine-general) at general / dyadic / special points in [-4,4]^n. The closure logs all call points and returned values. A case is non-trivial when the analytic Jacobian has a nonzero entry; distinct = distinct (type, class, m, n, delta, map data, point) hashes");
+    rep.assumptions = vec![
+        "affine-exact cases: exactness of every f64 operation is certified per case by an integer (2^-29 grid) model of the logged closure calls; a failed certificate is a harness error, never a verdict".into(),
+        "call log follows DESIGN: exactly n+1 calls, call 0 at x, call j+1 at x+delta*e_j; coordinates l>j bit-equal to x_l; coordinates l<=j bit-equal on dyadic data, within 256*u*(|x_l|+delta) on general data (rigorous rounding bound of (x+d)-d is 2 such units)".into(),
+        "entry vs forward difference quotient of the logged closure values: double-double reference, 512u relative per real/imaginary component".into(),
+        "derivative bound per entry: 1/2*M2*h^2/delta (M2 = sum over terms of a rigorous sup of the second derivative on the segment, h <= delta+2u(|x_j|+delta)) + 512u*(A_i(x)+A_i(x+delta e_j)+sum_{l<=j} D_il(|x_l|+delta))/delta + 64u*D_ij where A_i / D_il are term-magnitude sums of F_i and dF_i/dx_l; complex maps are holomorphic so the real-direction quotient converges to the complex partial derivative".into(),
+        "a panic for m<n whose message names the set_col range check is reported under the narrow signature panic-rectangular; any other refusal under panic".into(),
+    ];
+    rep.min_nontrivial = if ctx.quick() { 5000 } else { 100_000 };
+    let mut ex = J::obj();
+    ex.set("exhaustive_parts", J::Arr(vec![
+        J::s("all 36 shapes (m,n) in [1,6]^2 for both f64 and Cmplx in every run (unit index -> shape)"),
+        J::s("all 23 dyadic steps 2^-4..2^-26 for the exact affine class and all 24 steps (incl. 1e-8) for the general class, per shape, type and repetition"),
+        J::s("seed-independent affine sweep: 36 shapes x 2 types x 4 points x 23 steps"),
+    ]));
+    rep.extra = ex;
+    rep
 }
